@@ -18,6 +18,7 @@ namespace primesieve {
 
 class MemoryPool
 {
+  PRIMESIEVE_VERIF_FRIEND
 public:
   NOINLINE void addBucket(SievingPrime*& sievingPrime);
   void freeBucket(Bucket* bucket);
